@@ -718,6 +718,34 @@ func (l Lit) cmp() (token.Token, ssa.Value, ssa.Value, bool) {
 	return 0, nil, nil, false
 }
 
+// cmpWith is cmp() oriented so that subject - if it is one of the operands - is the left one (the operator is mirrored
+// accordingly): `len(f) > end` and `end < len(f)` read the same.
+func (l Lit) cmpWith(subject ssa.Value) (token.Token, ssa.Value, ssa.Value, bool) {
+	op, x, y, ok := l.cmp()
+	if !ok {
+		return op, x, y, ok
+	}
+	if stripConv(y) == stripConv(subject) && stripConv(x) != stripConv(subject) {
+		x, y = y, x
+		op = mirrorOp(op)
+	}
+	return op, x, y, true
+}
+
+func mirrorOp(op token.Token) token.Token {
+	switch op {
+	case token.LSS:
+		return token.GTR
+	case token.GTR:
+		return token.LSS
+	case token.LEQ:
+		return token.GEQ
+	case token.GEQ:
+		return token.LEQ
+	}
+	return op
+}
+
 // litIsNilTest: the literal says `v == nil` (eq=true) or `v != nil` (eq=false); returns v.
 func (l Lit) nilTest() (ssa.Value, bool, bool) {
 	op, x, y, ok := l.cmp()
